@@ -152,6 +152,15 @@ CLAIMS = {
         "haversine central angle (harness-oracle clauses, compared by the spec).",
    technique="TLA+ trace specification: polynomial ellipse identities and action property over latitude-ordered events",
    ref="5/C18"),
+ "C05": dict(
+   text="Sphere.tla gives the conversions their meaning as rotations of unit vectors; TLC model-checks the rotation operators on "
+        "the octahedral lattice and validates recorded conversions: forward map = the specified rotation, pairs mutually "
+        "inverse to 1e-9 degree (chords scaled so nothing underflows), documented ranges; separation through well-conditioned "
+        "chord identities with verified half-angle witnesses, position angle through the tangent-plane projection, enclosing "
+        "circle bounds.",
+   note="Trusted: TLC, Fix.tla, math.sin/cos for the spherical->Cartesian witnesses (norms verified in the spec).",
+   technique="TLA+ rotation algebra model-checked on lattice directions + trace validation on verified unit-vector witnesses",
+   ref="5/C05"),
 }
 
 PENDING_REASON = "check not built yet in this round (specification module planned in DESIGN.md section 5); not claimed until its trace specification validates the unchanged tree"
